@@ -44,6 +44,17 @@ pub fn type_of_block(block: &[u8]) -> Option<usize> {
     TYPES.iter().position(|t| t.1 == block[0] && t.2 == block[1])
 }
 
+/// What the statement lets us say about the type a sign reports after accepting `block`:
+/// the exact block of a supported type -> that type; a family/id pair no supported type carries -> no type;
+/// a supported type's family/id with *different* contents -> not determined (a forged / unknown variant).
+pub fn type_knowledge_of_block(block: &[u8]) -> TypeKnowledge {
+    match type_of_block(block) {
+        Some(i) if block == &BLOCKS[i][..] => TypeKnowledge::Is(Some(i)),
+        Some(_) => TypeKnowledge::Unconstrained,
+        None => TypeKnowledge::Is(None),
+    }
+}
+
 /// (width, height) a sign derives from a 16-byte block of family 4 / 8 per the documented layouts
 pub fn dims_of_block(block: &[u8]) -> Option<(u32, u32)> {
     if block.len() != 16 {
@@ -122,7 +133,7 @@ pub struct SignModel {
     /// chunks accepted since the receive request (16-bit, like the wire field)
     pub chunks: u16,
     /// type of the most recently accepted configuration block of the running/last transfer
-    last_block_type: Option<usize>,
+    last_block_type: TypeKnowledge,
     blocks_this_transfer: u32,
     block_since_reset: bool,
     pub sign_type: TypeKnowledge,
@@ -144,7 +155,7 @@ impl SignModel {
             pages: vec![],
             pending: vec![],
             chunks: 0,
-            last_block_type: None,
+            last_block_type: TypeKnowledge::Is(None),
             blocks_this_transfer: 0,
             block_since_reset: false,
             sign_type: TypeKnowledge::Is(None),
@@ -168,7 +179,7 @@ impl SignModel {
         self.pages.clear();
         self.pending.clear();
         self.chunks = 0;
-        self.last_block_type = None;
+        self.last_block_type = TypeKnowledge::Is(None);
         self.blocks_this_transfer = 0;
         self.block_since_reset = false;
         self.sign_type = TypeKnowledge::Is(None);
@@ -248,11 +259,11 @@ impl SignModel {
                         if let Some((w, h)) = dims_of_block(data) {
                             self.w = w;
                             self.h = h;
-                            self.last_block_type = type_of_block(data);
+                            self.last_block_type = type_knowledge_of_block(data);
                             self.blocks_this_transfer += 1;
                             self.block_since_reset = true;
                             self.chunks = self.chunks.wrapping_add(1);
-                            if self.last_block_type.is_none() {
+                            if self.last_block_type != TypeKnowledge::Is(type_of_block(data)) || type_of_block(data).is_none() {
                                 self.irregular = true;
                             }
                             return None;
@@ -276,7 +287,7 @@ impl SignModel {
                     if *n == self.chunks {
                         self.state = S_CONFIG_RECEIVED;
                         if self.blocks_this_transfer >= 1 {
-                            self.sign_type = TypeKnowledge::Is(self.last_block_type);
+                            self.sign_type = self.last_block_type;
                         } else {
                             self.sign_type = TypeKnowledge::Unconstrained;
                             if self.block_since_reset {
